@@ -361,7 +361,7 @@ func ruleShadowCreateMask(c *Check, rule string) {
 func ruleRawReadRestored(c *Check, rule string) {
 	fn, paths := c.walkFn(rule, fnReadDBI, WalkConfig{Memo: true,
 		KeepEvent: func(e *Event) bool {
-			return e.Kind == "ret" || e.Kind == "defer" || e.Kind == "store" && strings.HasSuffix(e.Addr, ".RawRead") || e.Kind == "call" && strings.Contains(e.Callee, "readDBI$")
+			return e.Kind == "ret" || e.Kind == "defer" || e.Kind == "store" && strings.HasSuffix(e.Addr, ".RawRead") || e.Kind == "call" && (strings.Contains(e.Callee, "readDBI$") || e.Defd)
 		},
 		KeepAtom: func(a Atom) bool { return false }})
 	if paths == nil {
@@ -383,6 +383,28 @@ func ruleRawReadRestored(c *Check, rule string) {
 		n++
 		restored := false
 		for _, e := range p.Events[set:] {
+			if e.Kind == "call" && e.Defd && e.Static != nil && unknownHelper(e.Static, 0) && e.Static.Signature.Recv() != nil && len(e.Args) > 0 && len(e.Static.Params) > 0 {
+				// a deferred method of a small holder struct: it stores one of its
+				// receiver's fields into the RawRead of another; at the defer site
+				// those fields are the mode read before the switch and this transaction
+				recv := "param:" + e.Static.Params[0].Name() + "."
+				lit := strings.TrimPrefix(e.Args[0], "&")
+				w := Walk(c.P, e.Static, WalkConfig{})
+				for k := range w.Paths {
+					for _, ce := range w.Paths[k].Events {
+						if ce.Kind != "store" || !strings.HasPrefix(ce.Addr, "&"+recv) || !strings.HasSuffix(ce.Addr, ".RawRead") || !strings.HasPrefix(ce.Val, recv) {
+							continue
+						}
+						tf := strings.TrimSuffix(strings.TrimPrefix(ce.Addr, "&"+recv), ".RawRead")
+						sf := strings.TrimPrefix(ce.Val, recv)
+						tv, ok1 := litField(lit, tf)
+						sv, ok2 := litField(lit, sf)
+						if ok1 && ok2 && tv == txn && sv == txn+".RawRead" {
+							restored = true
+						}
+					}
+				}
+			}
 			if e.Kind == "call" && e.Defd && strings.HasPrefix(e.Callee, fnReadDBI+"$") {
 				cl := c.P.Func(e.Callee)
 				if cl != nil {
@@ -418,7 +440,8 @@ func ruleRawReadRestored(c *Check, rule string) {
 // restores, checked above) and SendOnce's transaction body, whose value must be
 // false on every path that starts anything but env.View.
 func ruleRawReadWriters(c *Check, rule string) {
-	ws := fieldWriters(c.P, "Txn", "RawRead")
+	// writers in helpers extracted later stand for the known functions that call them
+	ws := attributeToOwners(c.P, fieldWriters(c.P, "Txn", "RawRead"))
 	sendTxn := fnSendOnce + "$txn"
 	n := 0
 	for fnName, ins := range ws {
